@@ -179,7 +179,11 @@ fn verif_grid() {
                                   ("EXTRACT(SECOND FROM ts)", json!(36)), ("date_trunc('hour', ts)", json!("2021-03-09 14:00:00.000")), ("date_trunc('day', ts)", json!("2021-03-09 00:00:00.000")),
                                   ("date_trunc('minute', ts)", json!("2021-03-09 14:25:00.000")), ("date_trunc('month', ts)", json!("2021-03-01 00:00:00.000")), ("date_trunc('year', ts)", json!("2021-01-01 00:00:00.000")),
                                   ("make_timestamp(2021, 3, 9, 14, 25, 36, 0)", json!("2021-03-09 14:25:36.000")), ("make_timestamp(2021, 3, 9, 14, 25, 36, 0) = ts", json!(true)),
-                                  ("make_timestamp(2021, 3, 9, 14, 25, 36, 500) > ts", json!(true)), ("ts - ts", json!("00:00:00.000"))].into_iter().enumerate() {
+                                  ("make_timestamp(2021, 3, 9, 14, 25, 36, 500) > ts", json!(true)), ("ts - ts", json!("00:00:00.000")),
+                                  // EXTRACT(EPOCH ..) counts seconds, the fraction of a second included (the seventh argument of make_timestamp is microseconds)
+                                  ("EXTRACT(EPOCH FROM make_timestamp(2021, 3, 9, 14, 25, 37, 250000)) - EXTRACT(EPOCH FROM ts)", json!(1.25)), ("EXTRACT(EPOCH FROM make_timestamp(2021, 3, 9, 14, 25, 36, 999000)) - EXTRACT(EPOCH FROM ts) < 1.0", json!(true)),
+                                  ("EXTRACT(EPOCH FROM make_timestamp(2021, 3, 9, 14, 25, 36, 1000)) > EXTRACT(EPOCH FROM ts)", json!(true)), ("EXTRACT(EPOCH FROM ts) - EXTRACT(EPOCH FROM date_trunc('minute', ts))", json!(36.0)),
+                                  ("EXTRACT(EPOCH FROM make_timestamp(2021, 3, 9, 14, 25, 36, 500000)) - EXTRACT(EPOCH FROM date_trunc('second', make_timestamp(2021, 3, 9, 14, 25, 36, 500000)))", json!(0.5))].into_iter().enumerate() {
             g.case(&format!("timestamp-function-{}", i), move || match q(tdef, &format!("SELECT {} AS v FROM t", expr), &["ts=2021-03-09 14:25:36"]) {
                 Outcome::Lines(l, _) => { let got: J = serde_json::from_str(&l[0]).unwrap();
                     let same = { let (p, q): (&J, &J) = (&got["v"], &want); match (p, q) { (J::Number(p), J::Number(q)) => p.as_f64() == q.as_f64(), _ => *p == *q } };
